@@ -482,8 +482,42 @@ impl<S: Storage> Builder<S> {
         self.spawn(id, stream)
     }
 
+    /// Casts the join keys of the two sides to a common type where they are numbers of different
+    /// types: the join executors hash and compare the key values as they are, and an INT 1 is
+    /// not a BIGINT 1.
+    fn unify_key_types(&mut self, lkeys: Id, rkeys: Id) -> (Id, Id) {
+        let mut ls = self.node(lkeys).as_list().to_vec();
+        let mut rs = self.node(rkeys).as_list().to_vec();
+        for i in 0..ls.len().min(rs.len()) {
+            let (Ok(lt), Ok(rt)) = (
+                self.egraph[ls[i]].data.type_.clone(),
+                self.egraph[rs[i]].data.type_.clone(),
+            ) else {
+                continue;
+            };
+            if lt == rt || !lt.is_number() || !rt.is_number() {
+                continue;
+            }
+            let Some(common) = lt.union(&rt) else {
+                continue;
+            };
+            let ty = self.egraph.add(Expr::Type(common.clone()));
+            if lt != common {
+                ls[i] = self.egraph.add(Expr::Cast([ty, ls[i]]));
+            }
+            if rt != common {
+                rs[i] = self.egraph.add(Expr::Cast([ty, rs[i]]));
+            }
+        }
+        (
+            self.egraph.add(Expr::List(ls.into())),
+            self.egraph.add(Expr::List(rs.into())),
+        )
+    }
+
     fn build_hashjoin<const T: JoinType>(&mut self, args: [Id; 6]) -> BoxedExecutor {
         let [_, cond, lkeys, rkeys, left, right] = args;
+        let (lkeys, rkeys) = self.unify_key_types(lkeys, rkeys);
         assert_eq!(self.node(cond), &Expr::true_());
         HashJoinExecutor::<T> {
             left_keys: self.resolve_column_index(lkeys, left),
@@ -496,6 +530,7 @@ impl<S: Storage> Builder<S> {
 
     fn build_hashsemijoin(&mut self, args: [Id; 6], anti: bool) -> BoxedExecutor {
         let [_, cond, lkeys, rkeys, left, right] = args;
+        let (lkeys, rkeys) = self.unify_key_types(lkeys, rkeys);
         if self.node(cond) == &Expr::true_() {
             HashSemiJoinExecutor {
                 left_keys: self.resolve_column_index(lkeys, left),
@@ -518,6 +553,7 @@ impl<S: Storage> Builder<S> {
 
     fn build_mergejoin<const T: JoinType>(&mut self, args: [Id; 6]) -> BoxedExecutor {
         let [_, cond, lkeys, rkeys, left, right] = args;
+        let (lkeys, rkeys) = self.unify_key_types(lkeys, rkeys);
         assert_eq!(self.node(cond), &Expr::true_());
         MergeJoinExecutor::<T> {
             left_keys: self.resolve_column_index(lkeys, left),
